@@ -682,6 +682,29 @@ def fixed_scenarios(run: Run):
             scen["function-specialised-to-the-argument-length"] = (
                 {"x": x, "y": y, "z": z}, {"hx": list(half(x))[0], "hy": list(half(y))[0], "hz": list(half(z))[0]},
                 {"x": np.ones(4, np.float32), "y": np.ones(10, np.float32), "z": np.ones(4, np.float32)})
+            # inlined model with a SEQUENCE input: the types of inline(m)(...) are the ones m declares, which is sound only because the
+            # argument is checked against m's declared input type - also for the ELEMENTS of a sequence.  A sequence whose elements have
+            # another extent / rank / element type is either refused (TypeError) or every result conforms to its reported type.
+            import onnx
+            import onnx.helper as oh
+            from spox import inline
+            seq_f3 = oh.make_sequence_type_proto(oh.make_tensor_type_proto(onnx.TensorProto.FLOAT, (3,)))
+            inner = oh.make_model(oh.make_graph(
+                [oh.make_node("ConcatFromSequence", ["xs"], ["stacked"], axis=0, new_axis=1),
+                 oh.make_node("Constant", [], ["zero"], value=oh.make_tensor("zero", onnx.TensorProto.INT64, (), [0])),
+                 oh.make_node("SequenceAt", ["xs", "zero"], ["first"])], "inner", [oh.make_value_info("xs", seq_f3)],
+                [oh.make_tensor_value_info("stacked", onnx.TensorProto.FLOAT, (None, 3)), oh.make_tensor_value_info("first", onnx.TensorProto.FLOAT, (3,))]),
+                opset_imports=[oh.make_operatorsetid("", 17)], ir_version=8)
+            for dt, esh, cnt in ((np.float32, (3,), 2), (np.float32, (5,), 2), (np.float32, (2, 3), 3), (np.float64, (3,), 2), (np.float32, (None,), 2)):
+                elems = [argument(Tensor(dt, esh)) for _ in range(cnt)]
+                try:
+                    res = inline(inner)(op.sequence_construct(elems))
+                except TypeError:
+                    continue                                    # refusing is sound
+                run_sh = tuple(3 if d is None else d for d in esh)     # an unknown extent is fed with what m declares (its precondition)
+                scen[f"inline-sequence-argument/{np.dtype(dt).name}{list(esh)}x{cnt}"] = (
+                    {f"e{k}": v for k, v in enumerate(elems)}, {k: op.identity(v) for k, v in res.items()},
+                    {f"e{k}": np.full(run_sh, k, dtype=dt) for k in range(cnt)})
         for name, (ins, outs, feeds) in scen.items():
             try:
                 with warnings.catch_warnings():
